@@ -207,3 +207,21 @@ Theorem C04_reader_print_read_text_partial : forall m : Schema.module, Reader.re
               Reader.read_module0 s' = Reader.read_module0 (Reader.render_module m)) ->
   Reader.read_text (Printer.print_forest [Spec.C02.erase (Reader.render_module m)]) = Some m.
 Proof. exact PrinterReaderProofs.print_render_read_text_partial. Qed.
+
+(* the hypotheses of the partial theorem above discharged: the reader never looks at positions, and printability / ASCII-ness
+   of the rendered tree follow from ONE computable predicate on the module ([printable m]: every keyword of the rendered tree is
+   a single unquoted token, every rune of every keyword and argument is below 128).  So for every well-formed printable module
+   the TEXT printed from it is read back -- lexer, parser and reader models end to end -- as the module itself.  (That
+   [printable m] is equivalent to "every rune of every string field of m is below 128" is not proved; it is computable on m.) *)
+From GY Require Proofs.PrinterReaderFull.
+
+Theorem C04_reader_ignores_positions : forall s s', Spec.C02.erase s' = Spec.C02.erase s ->
+  Reader.read_module0 s' = Reader.read_module0 s.
+Proof. exact PrinterReaderFull.read_module0_positions. Qed.
+
+Theorem C04_reader_text_roundtrip : forall m : Schema.module, Reader.reader_wf m = true -> PrinterReaderFull.printable m = true ->
+  Reader.read_text (Printer.print_forest [Spec.C02.erase (Reader.render_module m)]) = Some m.
+Proof. exact PrinterReaderFull.print_render_read_text. Qed.
+
+Example C04_reader_text_roundtrip_ex : Reader.reader_wf ReaderProofs.ex_module = true /\ PrinterReaderFull.printable ReaderProofs.ex_module = true.
+Proof. exact PrinterReaderFull.print_render_read_text_full_ex. Qed.
